@@ -74,11 +74,12 @@ EXPERIMENTS = [
     ("R6", "rewrite", "64 bit: `while` loop respelled (`uval / x < 1`, `x = x / base`), digit loop with `uval = uval - digit * x`",
      [("64", "while ((uval / x) == 0) {\n            x /= base;", "while (uval / x < 1) {\n            x = x / base;"),
       ("64", "uval -= digit * x;", "uval = uval - digit * x;")]),
+    ("R7", "rewrite", "32 bit: sign test `(int32_t) val <= 0` (equivalent here: val != 0 in this branch; the first version of the proofs broke on it, the harness found no failing input)",
+     [("32", "((int32_t) val < 0)", "((int32_t) val <= 0)")]),
     # ---- semantic changes: a proof must break
     ("B1", "break", "32 bit: the digit of zero stored without the `pos < len` test", [("32", "ADD_CHAR('0');", "str[pos++] = '0';")]),
-    ("B2", "break", "32 bit: sign test `(int32_t) val <= 0`", [("32", "((int32_t) val < 0)", "((int32_t) val <= 0)")]),
     ("B3", "break", "32 bit: initial divisor for base 8 is 0x20000000", [("32", "x = 0x40000000L;", "x = 0x20000000L;")]),
-    ("B4", "break", "32 bit: `while (x)` instead of `while (x && (pos < len))`", [("32", "} while (x && (pos < len));", "} while (x);")]),
+    ("B4", "break", "32 bit: `while (x)` instead of `while (x && (pos < len))` (the FUNCTION is unchanged - ADD_CHAR guards every store - but one ITERATION is not: the one-iteration lemma breaks and the harness finds no failing input)", [("32", "} while (x && (pos < len));", "} while (x);")]),
     ("B5", "break", "32 bit: NUL stored when `pos <= len`", [("32", "if (pos < len) str[pos] = 0;", "if (pos <= len) str[pos] = 0;")]),
     ("B6", "break", "64 bit: values below 2^32 delegated to the 32 bit function with the sign flag forwarded",
      [("64", "    uint64_t uval = val;\n", "    uint64_t uval = val;\n\n    if (val <= 0xFFFFFFFFULL) {\n        return UInt32ToStrBaseSign((uint32_t) val, str, len, base, sign);\n    }\n")]),
